@@ -101,7 +101,7 @@ func checkC19(c *Ctx, r *Report) {
 				ginfo := g.Pkg.TypesInfo
 				ast.Inspect(g.Decl.Body, func(n ast.Node) bool {
 					if call, isC := n.(*ast.CallExpr); isC && callee(ginfo, call) == f.Obj {
-						pc := &pathCtx{info: ginfo}
+						pc := pathCtxFor(g)
 						if pc.path(call.Args[0]) != "Utils.GenDotPath" {
 							ok = false
 						}
